@@ -65,7 +65,7 @@ mod verif_driver_compile {
                 Err(p) => witness("c02_cardano/compile_ada_value#reachable-panic", "compile_ada_value", format!("amount={a}"), format!("panic:{p}"), "Ok or Err"),
                 Ok(Ok(primitives::Value::Coin(c))) => {
                     if c as i128 != a {
-                        witness("c02_cardano/compile_ada_value#postcondition", "compile_ada_value", format!("amount={a}"), format!("Ok(Coin({c}))"), "Ok(Coin(c)) ==> c == amount (else Err)");
+                        witness("c02_cardano/compile_ada_value#postcondition", "compile_ada_value", format!("amount={a} class={}", if a < 0 || a > u64::MAX as i128 { "outside-u64" } else { "inside-u64" }), format!("Ok(Coin({c}))"), "Ok(Coin(c)) ==> c == amount (else Err)");
                     }
                 }
                 Ok(Ok(other)) => witness("c02_cardano/compile_ada_value#postcondition", "compile_ada_value", format!("amount={a}"), format!("{other:?}"), "Coin"),
@@ -105,7 +105,7 @@ mod verif_driver_compile {
                     let (coin, assets) = multiasset_amount(&v).unwrap();
                     let total: i128 = assets.iter().map(|x| x.2 as i128).sum();
                     if coin != 0 || total != a {
-                        witness("c02_cardano/compile_value#postcondition", "compile_value", format!("token amount={a} policy_len=28"), format!("Ok(coin={coin}, assets={assets:?})"), "Ok ==> the one token entry equals amount (0 => omitted), negative or > u64::MAX => Err");
+                        witness("c02_cardano/compile_value#postcondition", "compile_value", format!("token amount={a} policy_len=28 class={}", if a < 0 { "negative-token" } else { "non-negative-token" }), format!("Ok(coin={coin}, assets={assets:?})"), "Ok ==> the one token entry equals amount (0 => omitted), negative or > u64::MAX => Err");
                     }
                 }
                 Ok(Err(_)) => {
